@@ -106,13 +106,25 @@ def normalize_sites_rule(idx: Index, res: Result, rule: str = "NORM", prefixes=(
                     continue
                 n_sites += 1
                 p_ = src(deref(fi.node, a["precision"])).replace("fp.", "")
-                ok = False
-                for conv in (lambda e: src(e), lambda e: src(deref(fi.node, e))):
-                    b_, o_ = conv(a["base"]).replace("fp.", ""), conv(a["offset"]).replace("fp.", "")
-                    try:
-                        ok = ok or nf(p_) in (nf("max(scale(%s), scale(%s))" % (o_, b_)), nf("max(scale(%s), scale(%s))" % (b_, o_)))
-                    except SyntaxError:
-                        pass
+
+                def formula_ok(ptext: str) -> bool:
+                    for conv in (lambda e: src(e), lambda e: src(deref(fi.node, e))):
+                        b_, o_ = conv(a["base"]).replace("fp.", ""), conv(a["offset"]).replace("fp.", "")
+                        try:
+                            if nf(ptext) in (nf("max(scale(%s), scale(%s))" % (o_, b_)), nf("max(scale(%s), scale(%s))" % (b_, o_))):
+                                return True
+                        except SyntaxError:
+                            pass
+                    return False
+                ok = formula_ok(p_)
+                if not ok and isinstance(a["precision"], (ast.Name, ast.Call)):
+                    # the precision may be kept in a validated memo (remembered for the start time and dt it was computed for): every way
+                    # the local is bound must be the formula, directly or as what the memo stored for the current keys
+                    from ..util import value_alternatives
+                    cnode = idx.modules[fi.file].classes[fi.cls].node if fi.cls and fi.file in idx.modules and fi.cls in idx.modules[fi.file].classes else None
+                    alts = value_alternatives(cnode, fi.node, a["precision"])
+                    if alts and all(formula_ok(src(x).replace("fp.", "")) for x in alts):
+                        ok = True
                 b_, o_ = src(a["base"]), src(a["offset"])
                 res.check(rule, "%s: normalize() keeps the digits of offset and base" % fi.qual, ok, fi.loc(c), fi.qual, src(c)[:110],
                           "%s normalises with precision %s, not max(scale(%s), scale(%s)): grid points that need the digits of the other quantity are "
@@ -225,8 +237,18 @@ def check_normalisation(idx: Index, res: Result) -> None:
 
     def strip_fp(e):
         return src(e).replace("fp.", "")
-    ok = src(ma["x"]) == mp[2] and strip_fp(ma.get("base")) == "self.dt" and strip_fp(ma.get("offset")) == "self.starttime" and \
-        nf(strip_fp(ma.get("precision"))) in (nf("max(scale(self.starttime), scale(self.dt))"), nf("max(scale(self.dt), scale(self.starttime))"))
+    def _prec_ok(e) -> bool:
+        try:
+            return nf(strip_fp(e)) in (nf("max(scale(self.starttime), scale(self.dt))"), nf("max(scale(self.dt), scale(self.starttime))"))
+        except SyntaxError:
+            return False
+    prec_ok = _prec_ok(ma.get("precision"))
+    if not prec_ok and isinstance(ma.get("precision"), ast.Name):
+        # kept in a validated memo: every way the local is bound is the formula (see util.value_alternatives)
+        from ..util import value_alternatives as _valts
+        _alts = _valts(idx.cls(MODEL, "Model").node, memo.node, ma["precision"])
+        prec_ok = bool(_alts) and all(_prec_ok(x) for x in _alts)
+    ok = src(ma["x"]) == mp[2] and strip_fp(ma.get("base")) == "self.dt" and strip_fp(ma.get("offset")) == "self.starttime" and prec_ok
     res.check("NORM", "memoize normalises its argument like timerange (dt, starttime, max scale)", ok, memo.loc(ncalls[0]), memo.qual,
               src(ncalls[0]), "Model.memoize normalises with %s, timerange with (dt, start, max(scale(start), scale(dt)))" % src(ncalls[0]),
               key="NORM/memoize/parameters")
